@@ -10,6 +10,10 @@
            hi > 0  the segment contains a newer event          -> must survive
            hi = 0  exactly at the horizon: the statement ("older than") leaves it open
      w     weight: bytesReceivedCount class (volume pass) / inode count class (inode pass)
+     org   owning organisation (tenant).  segmeta.json is ONE file for all organisations, its
+           lines are in creation (= id) order; the time pass runs per organisation
+           (DoRetentionBasedDeletion(dir, hours, orgid) selects among the lines whose orgid is the
+           caller's) but rewrites the whole file.  Only log records carry a non-zero org here.
      m     multiplicity: the record stands for m rotated segments of the same index with
            IDENTICAL [lo, hi] (distinct keys) - two streams receiving the same batch, or
            second-granular timestamps.  Equal lo / hi of different records also mean
@@ -60,6 +64,9 @@ CONSTANTS MaxSegs,        \* segment sets of 1..MaxSegs segments
           MaxRepeat,      \* plain repetitions of the completed pass
           DetOrder,       \* BOOLEAN: per-victim loops run in id order (generation) / any order
           Mults,          \* multiplicities (at most one record of a set has m > 1, always a log record)
+          Orgs,           \* organisations; 0 is the default one (its segmeta.json lines carry no orgid field)
+          RewriteScratch, \* BOOLEAN model mutant of RemoveSegMetas: the rewrite decodes every line into ONE reused
+                          \* entry, so a field a line omits (orgid 0) keeps the value of an earlier line; FALSE as coded
           SortedDel,      \* how deleteSegmentKeyWithLock finds the entry in the per-table list:
                           \* "scan" (as coded: walk the list, compare keys) / "bsearch" (model mutant:
                           \* first entry with that latest time, then compare the key - wrong under ties)
@@ -68,13 +75,17 @@ CONSTANTS MaxSegs,        \* segment sets of 1..MaxSegs segments
 VARIABLES segs,           \* [1..n -> segment record]
           kind, limit, openw,
           files, mem, sorted, smeta, mmeta, pq,
+          ownerF, ownerM, \* org recorded in the segment's segmeta.json line / in the in-memory metadata (log segments)
+          porg, started, resume,  \* org of the running time pass, orgs whose pass was started, an interrupted pass is re-run
           pc, vL, vM, todo,
           crashes, repeats,
           ref             \* ghost: survivors of the first, uninterrupted selection
-vars == <<segs, kind, limit, openw, files, mem, sorted, smeta, mmeta, pq, pc, vL, vM, todo, crashes, repeats, ref>>
+vars == <<segs, kind, limit, openw, files, mem, sorted, smeta, mmeta, pq, ownerF, ownerM, porg, started, resume,
+          pc, vL, vM, todo, crashes, repeats, ref>>
 
-SegClasses == {r \in [kind : Kinds, lo : Times, hi : Times, w : Weights, m : Mults] :
-                  r.lo <= r.hi /\ (Straddle \/ r.lo = r.hi) /\ (r.m > 1 => r.kind = "log")}
+SegClasses == {r \in [kind : Kinds, lo : Times, hi : Times, w : Weights, m : Mults, org : Orgs] :
+                  /\ r.lo <= r.hi /\ (Straddle \/ r.lo = r.hi) /\ (r.m > 1 => r.kind = "log")
+                  /\ (r.org # 0 => (r.kind = "log" /\ r.m = 1))}
 Ids == DOMAIN segs
 LogIds == {s \in Ids : segs[s].kind = "log"}
 MetIds == {s \in Ids : segs[s].kind = "met"}
@@ -106,8 +117,10 @@ Pick(S) == IF DetOrder THEN {MinOf(S)} ELSE S
 -----------------------------------------------------------------------------
 (* ---- victim selection ---- *)
 
-\* DoRetentionBasedDeletion: LatestEpochMS <= deleteBefore
-TimeVictims == {s \in Listed : segs[s].hi <= 0}
+\* the org a pass sees for an entry: what the metadata FILE says
+OwnerInFile(s) == IF s \in LogIds THEN ownerF[s] ELSE segs[s].org
+\* DoRetentionBasedDeletion(orgid): entries of that org with LatestEpochMS <= deleteBefore
+TimeVictims(o) == {s \in Listed : segs[s].hi <= 0 /\ OwnerInFile(s) = o}
 
 \* sort key of the volume / inode scans
 KeyLess(a, b) ==
@@ -145,7 +158,7 @@ InoVictims(q) ==
   LET used == SumW(files)
   IN IF used <= limit THEN Dangling ELSE Dangling \cup InoScan(q, 1, 0, used - limit)
 
-Victims(q) == CASE kind = "time" -> TimeVictims
+Victims(q, o) == CASE kind = "time" -> TimeVictims(o)
                 [] kind = "volume" -> VolVictims(q)
                 [] kind = "inode" -> InoVictims(q)
 
@@ -159,6 +172,8 @@ Init ==
   /\ Cardinality({s \in Ids : segs[s].m > 1}) <= 1
   /\ files = Ids /\ mem = Ids /\ smeta = LogIds /\ mmeta = MetIds
   /\ sorted \in SortedLists(LogIds)
+  /\ ownerF = [s \in LogIds |-> segs[s].org] /\ ownerM = ownerF
+  /\ porg = 0 /\ started = {} /\ resume = FALSE
   /\ pq \in (IF WithPq THEN SUBSET LogIds ELSE {{}})
   /\ pc = "idle" /\ vL = {} /\ vM = {} /\ todo = {}
   /\ crashes = 0 /\ repeats = 0
@@ -169,22 +184,24 @@ AfterLog(m) == IF m = {} THEN "done" ELSE "m_mem"
 
 StartPass ==
   /\ pc = "idle"
-  /\ \E q \in ScanOrders(Listed) :
-       LET v == Victims(q) IN
+  /\ \E q \in ScanOrders(Listed), o \in (IF kind = "time" THEN Orgs ELSE {0}) :
+       LET v == Victims(q, o) IN
+       /\ resume => o = porg          \* an interrupted pass is run again for the same organisation
+       /\ porg' = o /\ started' = started \cup {o} /\ resume' = FALSE
        /\ vL' = v \cap LogIds
        /\ vM' = v \cap MetIds
-       /\ ref' = IF ref = {0} THEN Listed \ v ELSE ref
+       /\ ref' = IF o \notin started THEN (IF ref = {0} THEN Listed ELSE ref) \ v ELSE ref
        /\ IF v \cap LogIds # {}
           THEN pc' = "l_files" /\ todo' = v \cap LogIds
           ELSE pc' = AfterLog(v \cap MetIds) /\ todo' = v \cap MetIds
-  /\ UNCHANGED <<segs, kind, limit, openw, files, mem, sorted, smeta, mmeta, pq, crashes, repeats>>
+  /\ UNCHANGED <<segs, kind, limit, openw, files, mem, sorted, smeta, mmeta, pq, ownerF, ownerM, crashes, repeats>>
 
 \* step 2 of DeleteSegmentData: writer.RemoveSegBasedirs (one directory per iteration)
 RemoveDir(s) ==
   /\ pc = "l_files" /\ s \in Pick(todo)
   /\ files' = files \ {s}
   /\ IF todo = {s} THEN pc' = "l_mem" /\ todo' = vL ELSE pc' = pc /\ todo' = todo \ {s}
-  /\ UNCHANGED <<segs, kind, limit, openw, mem, sorted, smeta, mmeta, pq, vL, vM, crashes, repeats, ref>>
+  /\ UNCHANGED <<segs, kind, limit, openw, ownerF, ownerM, porg, started, resume, mem, sorted, smeta, mmeta, pq, vL, vM, crashes, repeats, ref>>
 
 \* step 3: segmetadata.DeleteSegmentKey per victim
 MemDel(s) ==
@@ -192,21 +209,26 @@ MemDel(s) ==
   /\ mem' = mem \ {s}
   /\ sorted' = SortedWithout(s)
   /\ IF todo = {s} THEN pc' = "l_pq" /\ todo' = {} ELSE pc' = pc /\ todo' = todo \ {s}
-  /\ UNCHANGED <<segs, kind, limit, openw, files, smeta, mmeta, pq, vL, vM, crashes, repeats, ref>>
+  /\ UNCHANGED <<segs, kind, limit, openw, ownerF, ownerM, porg, started, resume, files, smeta, mmeta, pq, vL, vM, crashes, repeats, ref>>
 
 \* step 4: deleteSegmentsFromEmptyPqMetaFiles (ranges over AllPQIDs of the victims)
 PqDel ==
   /\ pc = "l_pq"
   /\ pq' = IF PqIdsLoaded THEN pq \ vL ELSE pq
   /\ pc' = "l_segmeta"
-  /\ UNCHANGED <<segs, kind, limit, openw, files, mem, sorted, smeta, mmeta, vL, vM, todo, crashes, repeats, ref>>
+  /\ UNCHANGED <<segs, kind, limit, openw, ownerF, ownerM, porg, started, resume, files, mem, sorted, smeta, mmeta, vL, vM, todo, crashes, repeats, ref>>
 
-\* step 5: writer.RemoveSegMetas (tmp file + rename: atomic)
+\* step 5: writer.RemoveSegMetas (tmp file + rename: atomic).  As coded every preserved line is written back as it was read.
+\* Mutant: one reused decode target; a line that omits orgid (org 0) keeps the orgid of the nearest earlier line that has one
+ScratchOrg(s) == IF ownerF[s] # 0 THEN ownerF[s]
+                 ELSE LET prev == {t \in smeta : t < s /\ ownerF[t] # 0}
+                      IN IF prev = {} THEN 0 ELSE ownerF[CHOOSE t \in prev : \A u \in prev : u <= t]
 SegmetaRewrite ==
   /\ pc = "l_segmeta"
   /\ smeta' = smeta \ vL
+  /\ ownerF' = IF RewriteScratch THEN [s \in LogIds |-> IF s \in smeta THEN ScratchOrg(s) ELSE ownerF[s]] ELSE ownerF
   /\ pc' = AfterLog(vM) /\ todo' = vM
-  /\ UNCHANGED <<segs, kind, limit, openw, files, mem, sorted, mmeta, pq, vL, vM, crashes, repeats, ref>>
+  /\ UNCHANGED <<segs, kind, limit, openw, ownerM, porg, started, resume, files, mem, sorted, mmeta, pq, vL, vM, crashes, repeats, ref>>
 
 \* DeleteMetricsSegmentData: segmetadata.DeleteMetricsSegmentKey per victim
 \* (assumption: the 5 s refresh loop has loaded every listed metrics segment; otherwise the
@@ -215,21 +237,21 @@ MMemDel(m) ==
   /\ pc = "m_mem" /\ m \in Pick(todo) /\ m \in mem
   /\ mem' = mem \ {m}
   /\ IF todo = {m} THEN pc' = "m_files" /\ todo' = vM ELSE pc' = pc /\ todo' = todo \ {m}
-  /\ UNCHANGED <<segs, kind, limit, openw, files, sorted, smeta, mmeta, pq, vL, vM, crashes, repeats, ref>>
+  /\ UNCHANGED <<segs, kind, limit, openw, ownerF, ownerM, porg, started, resume, files, sorted, smeta, mmeta, pq, vL, vM, crashes, repeats, ref>>
 
 \* mmeta.RemoveMetricsSegments: os.RemoveAll(dir) per removed entry ...
 MRemoveDir(m) ==
   /\ pc = "m_files" /\ m \in Pick(todo)
   /\ files' = files \ {m}
   /\ IF todo = {m} THEN pc' = "m_meta" /\ todo' = {} ELSE pc' = pc /\ todo' = todo \ {m}
-  /\ UNCHANGED <<segs, kind, limit, openw, mem, sorted, smeta, mmeta, pq, vL, vM, crashes, repeats, ref>>
+  /\ UNCHANGED <<segs, kind, limit, openw, ownerF, ownerM, porg, started, resume, mem, sorted, smeta, mmeta, pq, vL, vM, crashes, repeats, ref>>
 
 \* ... then metricmeta.json rewritten (tmp + rename) or removed
 MMetaRewrite ==
   /\ pc = "m_meta"
   /\ mmeta' = mmeta \ vM
   /\ pc' = "done"
-  /\ UNCHANGED <<segs, kind, limit, openw, files, mem, sorted, smeta, pq, vL, vM, todo, crashes, repeats, ref>>
+  /\ UNCHANGED <<segs, kind, limit, openw, ownerF, ownerM, porg, started, resume, files, mem, sorted, smeta, pq, vL, vM, todo, crashes, repeats, ref>>
 
 \* the process dies at any point of the pass; the next process loads every listed entry
 Crash ==
@@ -237,17 +259,19 @@ Crash ==
   /\ crashes' = crashes + 1
   /\ mem' = Listed
   /\ sorted' \in SortedLists(smeta)
+  /\ ownerM' = ownerF /\ resume' = TRUE
   /\ pc' = "idle" /\ vL' = {} /\ vM' = {} /\ todo' = {}
-  /\ UNCHANGED <<segs, kind, limit, openw, files, smeta, mmeta, pq, repeats, ref>>
+  /\ UNCHANGED <<segs, kind, limit, openw, ownerF, porg, started, files, smeta, mmeta, pq, repeats, ref>>
 
 \* the completed pass runs again (next 30-minute tick), possibly after a restart
 Repeat ==
   /\ pc = "done" /\ repeats < MaxRepeat
   /\ repeats' = repeats + 1
   /\ \E restart \in BOOLEAN :
-       IF restart THEN mem' = Listed /\ sorted' \in SortedLists(smeta) ELSE mem' = mem /\ sorted' = sorted
+       IF restart THEN mem' = Listed /\ sorted' \in SortedLists(smeta) /\ ownerM' = ownerF
+       ELSE mem' = mem /\ sorted' = sorted /\ ownerM' = ownerM
   /\ pc' = "idle" /\ vL' = {} /\ vM' = {} /\ todo' = {}
-  /\ UNCHANGED <<segs, kind, limit, openw, files, smeta, mmeta, pq, crashes, ref>>
+  /\ UNCHANGED <<segs, kind, limit, openw, ownerF, porg, started, resume, files, smeta, mmeta, pq, crashes, ref>>
 
 Next == \/ StartPass
         \/ \E s \in Ids : RemoveDir(s) \/ MemDel(s) \/ MMemDel(s) \/ MRemoveDir(s)
@@ -260,7 +284,10 @@ Spec == Init /\ [][Next]_vars
    repetition and after plain repetition). *)
 \* a log segment is selected for search iff it is in the per-table list
 Selected(s) == IF s \in LogIds THEN InSorted(s) ELSE s \in mem
-Alive(s) == s \in files /\ s \in mem /\ Selected(s) /\ s \in Listed
+\* the segment still belongs to its organisation: in its segmeta.json line and in memory (what that org's queries and
+\* that org's next retention pass see)
+OwnOrg(s) == s \in LogIds => (ownerF[s] = segs[s].org /\ ownerM[s] = segs[s].org)
+Alive(s) == s \in files /\ s \in mem /\ Selected(s) /\ s \in Listed /\ OwnOrg(s)
 Gone(s) == s \notin files /\ s \notin mem /\ ~Selected(s) /\ s \notin Listed /\ s \notin pq
 Completed == pc = "done"
 
@@ -268,10 +295,12 @@ Completed == pc = "done"
 Consistent == Completed => \A s \in Ids : Alive(s) \/ Gone(s)
 \* time pass: everything older than the horizon is deleted, nothing containing a newer event is
 TimeExact == (Completed /\ kind = "time") =>
-                \A s \in Ids : /\ segs[s].hi < 0 => Gone(s)
-                               /\ segs[s].hi > 0 => Alive(s)
+                \A s \in Ids : /\ (segs[s].hi < 0 /\ segs[s].org \in started) => Gone(s)
+                               /\ (segs[s].hi > 0 \/ segs[s].org \notin started) => Alive(s)
 \* every pass: what is deleted is older than (or as old as) everything that is kept
-OldestFirst == Completed => \A a, b \in Ids : (Gone(a) /\ ~Gone(b)) => segs[a].hi <= segs[b].hi
+\* (time pass: among the organisations whose pass has run)
+OldestFirst == Completed => \A a, b \in Ids :
+                 (Gone(a) /\ ~Gone(b) /\ (kind # "time" \/ segs[b].org \in started)) => segs[a].hi <= segs[b].hi
 \* interrupted + repeated / repeated: same outcome as the uninterrupted pass
 Idempotent == Completed => {s \in Ids : ~Gone(s)} = ref
 \* volume/inode passes never delete when under the limit
@@ -280,6 +309,7 @@ NoNeedlessDeletion ==
 
 TypeOK == /\ pc \in {"idle", "l_files", "l_mem", "l_pq", "l_segmeta", "m_mem", "m_files", "m_meta", "done"}
           /\ \A i \in 1..Len(sorted) : sorted[i] \in LogIds
+          /\ porg \in Orgs /\ started \subseteq Orgs
           /\ files \subseteq Ids /\ mem \subseteq Ids /\ smeta \subseteq LogIds /\ mmeta \subseteq MetIds
           /\ pq \subseteq LogIds /\ vL \subseteq LogIds /\ vM \subseteq MetIds /\ todo \subseteq Ids
           /\ crashes \in 0..MaxCrash /\ repeats \in 0..MaxRepeat
